@@ -7,7 +7,9 @@ use serde_json::json;
 use std::collections::BTreeMap;
 use tera::{Context, Tera};
 
-const NAMES: [&str; 9] = ["x.html", "y.html", "z.txt", "t/x.html", "w.html", "t/u.html", "u.html", "lib.html", "v.txt"];
+// `zz/` is the higher-priority prefix of the two-prefix configuration: a template added there later shadows what a short
+// name resolved to before
+const NAMES: [&str; 10] = ["x.html", "y.html", "z.txt", "t/x.html", "w.html", "t/u.html", "u.html", "lib.html", "v.txt", "zz/u.html"];
 
 fn menu() -> Vec<(&'static str, &'static str)> {
     vec![
